@@ -1204,6 +1204,12 @@ func (vc *VC) enterLoop(lp *loopInfo, b *ssa.BasicBlock, st *State, edges []inEd
 		env2.flushSide(reachEntry)
 		vc.assumeIf(reachEntry, f)
 	}
+	for _, c := range ls.Assumes {
+		f := env2.evalBool(c.E)
+		env2.flushSide(reachEntry)
+		vc.assumeIf(reachEntry, f)
+		vc.noteTrusted(fmt.Sprintf("ASSUMED at every iteration of loop %d of %s (resource bound, not checked): %s", lp.ordinal, vc.fn.Name(), c.Src))
+	}
 	o := vc.oblige(fmt.Sprintf("vacuity.loop%d", lp.ordinal), "", reachEntry, "true", "loop invariant is satisfiable")
 	o.expect = "sat"
 	return hst
